@@ -54,7 +54,7 @@ class HarnessError(Exception):
     pass
 
 
-def simplest_fraction(x, rel=2.0 ** -50):
+def simplest_fraction(x, rel=Fraction(1, 2 ** 50)):
     """The simplest rational within a relative distance `rel` of the float x (reals-for-floats: a float
     such as 1./6 or 1e-10 stands for the real number it was meant to be, not for its binary expansion)."""
     fx = Fraction(x)
@@ -708,9 +708,12 @@ def const_root_parts(fr):
     if fr < 0:
         raise ValueError('math domain error')
     nd = fr.numerator * fr.denominator          # sqrt(n/d) = sqrt(n d)/d
+    r = math.isqrt(nd)
+    if r * r == nd:
+        return Fraction(r, fr.denominator), 1
     s, m = 1, nd
     f = 2
-    while f * f <= m:
+    while f * f <= m and f < 5000:
         while m % (f * f) == 0:
             m //= f * f
             s *= f
